@@ -12,6 +12,7 @@
 -/
 import MitmVerif.Lemmas.C42
 import MitmVerif.Lemmas.C42Print
+import MitmVerif.Model.C42_Body
 namespace MitmVerif.Props.C42
 open MitmVerif.C42
 
@@ -318,5 +319,49 @@ theorem eval_juxt_absorb {Flow : Type} (sem : Sem Flow) (f : Flow) (l : List Ast
 /-- non-vacuity of `eval_congr`: the leaves of a tree are what one expects -/
 example : leaves (.or [.and [.not (.unary ['q']), .int ['c'] 7], .rex ['u'] ['x']])
     = [.unary ['q'], .int ['c'] 7, .rex ['u'] ['x']] := rfl
+
+/-! ### the body operators answer on every flow, whatever the Content-Encoding -/
+
+/-- What ~b/~bq/~bs search, case by case: nothing for a streamed body; the bytes as received without a
+Content-Encoding; the decoded bytes when the decoder succeeds; the bytes AS RECEIVED when it fails. -/
+theorem body_searched (dec : Str → Bytes → Option Bytes) (raw : Bytes) (c : Str) (hc : c ≠ []) :
+    searched dec ⟨none, some c⟩ = none ∧
+    searched dec ⟨some raw, none⟩ = some raw ∧
+    searched dec ⟨some raw, some []⟩ = some raw ∧
+    (∀ d, dec c raw = some d → searched dec ⟨some raw, some c⟩ = some d) ∧
+    (dec c raw = none → searched dec ⟨some raw, some c⟩ = some raw) := by
+  refine ⟨rfl, rfl, rfl, fun d hd => ?_, fun hd => ?_⟩ <;> simp [searched, hc, hd]
+
+/-- A message with a body always gives the operator something to search - a decoder failure never takes the body away. -/
+theorem body_searched_some (dec : Str → Bytes → Option Bytes) (raw : Bytes) (ce : Option Str) :
+    ∃ b, searched dec ⟨some raw, ce⟩ = some b ∧ (b = raw ∨ ∃ c, ce = some c ∧ dec c raw = some b) := by
+  cases ce with
+  | none => exact ⟨raw, rfl, Or.inl rfl⟩
+  | some c =>
+    by_cases hc : c = []
+    · exact ⟨raw, by simp [searched, hc], Or.inl rfl⟩
+    · cases hd : dec c raw with
+      | none => exact ⟨raw, by simp [searched, hc, hd], Or.inl rfl⟩
+      | some d => exact ⟨d, by simp [searched, hc, hd], Or.inr ⟨c, rfl, hd⟩⟩
+
+/-- The leaf verdict is total and is the search on the raw bytes when the coding cannot be applied, on the decoded
+bytes when it can. -/
+theorem bodyLeaf_total (search : Bytes → Bool) (dec : Str → Bytes → Option Bytes) (raw : Bytes) (c : Str) (hc : c ≠ []) :
+    (dec c raw = none → bodyLeaf search dec [⟨some raw, some c⟩] = search raw) ∧
+    (∀ d, dec c raw = some d → bodyLeaf search dec [⟨some raw, some c⟩] = search d) ∧
+    bodyLeaf search dec [⟨none, some c⟩] = false ∧
+    (∀ ms, bodyLeaf search dec ms = true ∨ bodyLeaf search dec ms = false) := by
+  refine ⟨fun hd => ?_, fun d hd => ?_, by simp [bodyLeaf, searched], fun ms => ?_⟩
+  · simp [bodyLeaf, searched, hc, hd]
+  · simp [bodyLeaf, searched, hc, hd]
+  · cases bodyLeaf search dec ms <;> simp
+
+/-- Every tree has a verdict on every flow: evaluation never fails, whatever the leaves are. -/
+theorem eval_total {Flow : Type} (sem : Sem Flow) (t : Ast) (f : Flow) : eval sem t f = true ∨ eval sem t f = false := by
+  cases eval sem t f <;> simp
+
+/-- a decoder that refuses everything: the operators then search exactly what was received -/
+example : bodyLeaf (fun b => b == [104, 105]) (fun _ _ => none) [⟨some [104, 105], some ['g', 'z', 'i', 'p']⟩] = true := by
+  decide
 
 end MitmVerif.Props.C42
